@@ -45,8 +45,13 @@ impl StepOracle for C15Oracle {
             _ => return Verdict::Pass,
         };
         let (r0, r1, s) = pool_in(w, &cx.rec.before, pair);
-        if tol.is_none() || s == 0 {
+        // an unminted pair is judged like any other as soon as both reserves hold something (plain transfers
+        // can put reserves there before the first mint); with an empty side there is no reserve ratio
+        if tol.is_none() || (s == 0 && (r0 == 0 || r1 == 0)) {
             return Verdict::Pass;
+        }
+        if s == 0 {
+            classes.push("w:first-mint-into-donated-reserves");
         }
         let out = match &cx.rec.outcome {
             Outcome::Ok { .. } => GuardOutcome::Ok,
@@ -83,7 +88,7 @@ impl StepOracle for C15Oracle {
 
 fn run_sys(t: &Tape, want_desc: bool) -> CaseResult {
     let mut o = C15Oracle::default();
-    let h = run_history(t, &SLIPPAGE, 16, &mut o, want_desc);
+    let h = run_history(t, &SLIPPAGE, 12, &mut o, want_desc);
     hist_case(t, h)
 }
 
